@@ -3,6 +3,8 @@ import itertools
 import hashlib
 import os.path
 import inspect
+import threading
+import types
 from importlib.machinery import SourceFileLoader
 from importlib.util import cache_from_source
 
@@ -154,17 +156,13 @@ def unpack_impl(pkt, raw, offset, **k):
         # Try to import it first, if exists
         module = None
         if os.path.exists(module_pathname):
-            try:
-                module = SourceFileLoader(module_name,
-                                          module_pathname).load_module()
-            except ImportError:
-                pass
+            module = self.load_generated_module(module_name, module_pathname)
 
-        # If no previously written module exists or its cooke does not match
-        # ours, recreate the file and reload it
-        if not module or getattr(
-            module, 'BISTURI_PACKET_COOKIE', None
-        ) != cookie:
+        # If no previously written module exists, it is unusable (another
+        # process may have died while writing it, or may be writing it right
+        # now) or its cooke does not match ours, recreate the file and
+        # reload it
+        if not self.is_usable(module, cookie):
             # Delete the compiled file (.pyc)
             if module and hasattr(module, '__cached__'):
                 module_compiled_filename = module.__cached__
@@ -173,21 +171,38 @@ def unpack_impl(pkt, raw, offset, **k):
                 # a compiled file of an earlier definition may still be there
                 module_compiled_filename = cache_from_source(module_pathname)
 
-            if os.path.exists(module_compiled_filename):
+            try:
                 os.remove(module_compiled_filename)
+            except OSError:
+                pass
 
             # creates folder to host our generated code
             os.makedirs(folder, exist_ok=True)
 
-            with open(module_pathname, 'w') as module_file:
-                module_file.write(import_code)
-                module_file.write(cookie_code)
-                module_file.write(pack_code)
-                module_file.write(unpack_code)
+            # Never expose a half written module: write it to a private
+            # temporary file and move it into place atomically
+            sourcecode = import_code + cookie_code + pack_code + unpack_code
+            tmp_pathname = "%s.%i.%i.tmp" % (
+                module_pathname, os.getpid(), threading.get_ident()
+            )
+            with open(tmp_pathname, 'w') as module_file:
+                module_file.write(sourcecode)
+
+            os.replace(tmp_pathname, module_pathname)
 
             # load it (again)
-            module = SourceFileLoader(module_name,
-                                      module_pathname).load_module()
+            module = self.load_generated_module(module_name, module_pathname)
+
+            # Somebody else may have replaced the file in the meantime
+            # (a same-named class defined concurrently): in that case run
+            # our own code straight from memory
+            if not self.is_usable(module, cookie):
+                module = types.ModuleType(module_name)
+                module.__file__ = module_pathname
+                exec(
+                    compile(sourcecode, module_pathname, 'exec'),
+                    module.__dict__
+                )
 
         from bisturi.packet import Packet
         if self.generate_for_pack and (
@@ -199,6 +214,29 @@ def unpack_impl(pkt, raw, offset, **k):
             self.pkt_class.unpack_impl == Packet.unpack_impl
         ):
             self.pkt_class.unpack_impl = module.unpack_impl
+
+    def load_generated_module(self, module_name, module_pathname):
+        ''' Load the module or return None if it cannot be loaded, whatever
+            the reason is: the file can be incomplete, being replaced or
+            come from something else.'''
+        try:
+            return SourceFileLoader(module_name, module_pathname).load_module()
+        except Exception:
+            return None
+
+    def is_usable(self, module, cookie):
+        if not module or getattr(
+            module, 'BISTURI_PACKET_COOKIE', None
+        ) != cookie:
+            return False
+
+        if self.generate_for_pack and not hasattr(module, 'pack_impl'):
+            return False
+
+        if self.generate_for_unpack and not hasattr(module, 'unpack_impl'):
+            return False
+
+        return True
 
     def generate_unrolled_code_for_descriptor_sync(self, sync_for_pack):
         if sync_for_pack:
